@@ -1,7 +1,8 @@
 import svlib
 
 THEOREMS = ["u128_add_spec", "u128_sub_spec", "u128_mul_spec", "u128_div_spec_partial", "sqrt_floor",
-            "u64_sqrt_floor", "pow_spec", "u64_pow_spec", "narrow_pow_spec", "vec_refines_list",
+            "u64_sqrt_floor", "pow_spec", "u64_pow_spec", "narrow_pow_spec", "u64_log_spec", "log2_spec", "log_spec",
+            "vec_refines_list",
             "vec_history", "vec_new_inv"]
 
 SPEC = dict(
@@ -30,8 +31,8 @@ SPEC = dict(
                   "the Sway compiler lowers u64/u256 operators to single ALU / wide-ALU instructions (assumed by the "
                   "transcription, exercised by every correspondence case)",
                   "proved for ALL inputs: U128 add/sub/mul, u256 Newton sqrt incl. termination and no-overflow, u64 sqrt, "
-                  "u256/u64/narrow pow, every Vec/Bytes/String operation and all operation histories; NOT proved (tied by "
-                  "correspondence only): U128 long-division loop, U128 pow/sqrt/log, u256 log/log2, shifts of U128"],
+                  "u256/u64/narrow pow, u64 log, u256 log2 and log, every Vec/Bytes/String operation and all operation histories; "
+                  "NOT proved (tied by correspondence only): U128 long-division loop, U128 pow/sqrt/log/log2, shifts of U128"],
     assumptions=["len and cap stay below 2^63 (the VM has 64 MiB of memory) — their u64 arithmetic is not modelled as overflowing",
                  "a Vec/Bytes value is not used through a stale copy after the original reallocated (Sway copies {ptr,cap,len})",
                  "U128 behaviour under non-default flags is only specified where std documents it (pow returns 0, "
@@ -47,13 +48,13 @@ MANIFEST = dict(
               "model + differential correspondence: generated forc unit tests executed on the real FuelVM",
     text="proof (about transcriptions): for ALL inputs U128 add/sub/mul are exact or revert exactly on overflow/underflow; "
          "u256 Newton sqrt terminates within its fuel, never overflows and returns the floor root; u256/u64/u32/u16/u8 pow "
-         "is exact or reverts (0 with panic-on-overflow disabled) exactly on overflow; every Vec/Bytes/String operation of the "
+         "is exact or reverts (0 with panic-on-overflow disabled) exactly on overflow; u256 log2/log and u64 log return the floor logarithm or revert on the undefined inputs; every Vec/Bytes/String operation of the "
          "{buf,cap,len} machine refines the List operation, keeps len <= cap, never leaves its allocation and reverts exactly "
          "when the list operation is undefined, lifted to all histories. Transcription fidelity rests on the correspondence: "
          "each run compiles generated tests with the real compiler against /repo/sway-lib-std and compares every VM result "
          "with the transcription (agree) and with the Nat/List reference (prop).",
     note="trusted: Lean kernel + propext/Classical.choice/Quot.sound; the ALU model (from fuel-vm sources); the transcriptions; "
-         "the reference refNum/specStep; harness generator. Partial: U128 division loop, U128 pow/sqrt/log, u256 log/log2 are "
+         "the reference refNum/specStep; harness generator. Partial: U128 division loop, U128 pow/sqrt/log/log2 and shifts are "
          "transcribed and tied by correspondence only. The unchanged std violated the property twice (log over-estimate via "
          "stale $of; U128 checked_mul cross-term wrap) — both repaired by fix: commits, listed in known_findings.json as fixed.",
 )
